@@ -98,6 +98,9 @@ def run (s : St) : List Op → List Out
   | [] => []
   | op :: ops => (step s op).2 :: run (step s op).1 ops
 
+/-- the state after a history -/
+def exec (s : St) (ops : List Op) : St := ops.foldl (fun s op => (step s op).1) s
+
 /-- what the spec does not determine: numeric handles, and the reserved zero entity -/
 def erase : Op → Out → Out
   | .spawn _, .ent _ => .any
